@@ -129,6 +129,7 @@ func lemmaHpackIntTruncated(n byte, i uint64, cut int) (ok bool) {
 //@   noframe
 //@
 //@ func (*Decoder).parseHeaderFieldRepr(d) (err)
+//@   havocs except Decoder.firstField, Decoder.maxStrLen
 //@   assert at call parseFieldLiteral: ($it == indexedNever) == (old(d.buf[0]) & 0xF0 == 0x10)
 //@   assert at call parseFieldLiteral: ($it == indexedTrue) == (old(d.buf[0]) & 0xC0 == 0x40)
 //@   requires d != nil && d.maxStrLen >= 0 && len(d.buf) >= 1 && len(d.dynTab.table.ents) <= 1<<32 && staticTable != nil && len(staticTable.ents) <= 1<<16
@@ -223,3 +224,19 @@ func lemmaHpackIntTruncated(n byte, i uint64, cut int) (ok bool) {
 //@   trusted
 //@   modifies *t
 //@   allocates
+
+// ---------------------------------------------------------------------------
+// Decoder.Write (property C03): a representation that is only truncated leaves the decoder as it
+// was (the pieces are saved and parsed again with the next Write); in particular firstField,
+// which decides whether a table size update is still legal, changes only when a representation
+// was completely parsed.
+//
+//@ func (*Decoder).Write(d, p) (n, err)
+//@   requires d != nil
+//@   ghost done += 1 after call parseHeaderFieldRepr when $r0 != errNeedMore
+//@   ensures  ghost(done) == 0 ==> d.firstField == old(d.firstField)
+//@   ensures  ghost(done) > 0 ==> !d.firstField
+//@   loop 1 invariant ghost(done) == 0 ==> d.firstField == old(d.firstField)
+//@   loop 1 invariant ghost(done) > 0 ==> !d.firstField
+//@   partial pre, nopanic
+//@   noframe
